@@ -285,8 +285,18 @@ class FS:
         return out
 
 
+    def copy_into(self, eng, args, kwargs, st, node):
+        """shutil.copy / copy2 / copyfile / move and friends write their target piecewise: never an atomic publication"""
+        if len(args) >= 2 and self.which(eng, st, args[1]) == 'D':
+            eng.oblige('assert', 'the destination is never written by a copy (only rename/link of the finished part file publish)',
+                       st, z3.BoolVal(False), node)
+            return [(SNone(), st), self.may_fail(st, 'shutil copy')]     # (the failed obligation above already blocks any proof)
+        raise Unsupported('shutil copy that does not target the destination')
+
+
 def externals(fs):
-    return {'os.path.lexists': fs.lexists, 'os.stat': fs.stat, 'stat.S_IMODE': fs.s_imode, 'os.unlink': fs.unlink,
+    cp = {n: fs.copy_into for n in ('copy', 'copy2', 'copyfile', 'move', 'shutil.copy', 'shutil.copy2', 'shutil.copyfile', 'shutil.move')}
+    return cp | {'os.path.lexists': fs.lexists, 'os.stat': fs.stat, 'stat.S_IMODE': fs.s_imode, 'os.unlink': fs.unlink,
             'os.open': fs.open, 'set_cloexec': fs.set_cloexec, 'os.fdopen': fs.fdopen, 'os.chmod': fs.chmod,
             'os.close': fs.os_close, 'os.fsync': fs.fsync, 'os.rename': fs.rename, 'os.link': fs.link,
             'method:PartFile.flush': fs.f_flush, 'method:PartFile.tell': fs.f_tell, 'method:PartFile.fileno': fs.f_fileno,
@@ -441,7 +451,9 @@ replace_c = Contract('replace', inline=True)
 
 CONTRACTS = {c.qualname: c for c in [setup_c, open_part, enter_c, exit_c, atomic_rename_c, replace_c]}
 CONSTS = {'os': SFunc('module', 'os'), 'stat': SFunc('module', 'stat'), 'errno': SFunc('module', 'errno'),
-          'set_cloexec': SFunc('extfunc', 'set_cloexec')}
+          'set_cloexec': SFunc('extfunc', 'set_cloexec'), 'shutil': SFunc('module', 'shutil'),
+          'copy2': SFunc('extfunc', 'copy2'), 'copyfile': SFunc('extfunc', 'copyfile'), 'copy': SFunc('extfunc', 'copy'),
+          'move': SFunc('extfunc', 'move')}
 
 
 def make_engine(repo):
